@@ -166,3 +166,55 @@ def _abs_seq(items, out):
                 out += ['M' if k == 'math' else 'G', kind]
                 _abs_seq(e._contents, out)
     return out
+
+
+# ---- reading a flat encoding back (mirror of NameOf / OpenOf / CloseOf in TexTree.tla) ------------------------------
+MATH_NAMES = {'$': ('$', '$', '$'), '$$': ('$$', '$$', '$$'), '\\(': ('math', '\\(', '\\)'), '\\[': ('displaymath', '\\[', '\\]')}
+
+
+def names_from_flat(flat):
+    """[name, begin, end] of every node that the views hand out (argument groups themselves are not handed out),
+    from a flat tree encoding; sorted."""
+    out = []
+    pos = [0]
+
+    def take():
+        v = flat[pos[0]]
+        pos[0] += 1
+        return v
+
+    def chars(n):
+        from harness.tlc import from_atoms
+        v = flat[pos[0]:pos[0] + n]
+        pos[0] += n
+        return from_atoms(v)
+
+    def node(is_arg):
+        tag = take()
+        if tag == 'T':
+            take()
+            chars(int(take()))
+            return
+        if tag in ('C', 'E'):
+            take()
+            name = chars(int(take()))
+            if tag == 'C':
+                out.append([name, '', ''])
+            else:
+                out.append([name, '\\begin{%s}' % name, '\\end{%s}' % name])
+            for _ in range(int(take())):
+                node(True)
+            for _ in range(int(take())):
+                node(False)
+            return
+        take()
+        kind = take()
+        if tag == 'M':
+            out.append(list(MATH_NAMES[kind]))
+        elif not is_arg:
+            out.append(['BraceGroup', '{', '}'] if kind == '{' else ['BracketGroup', '[', ']'])
+        for _ in range(int(take())):
+            node(False)
+    while pos[0] < len(flat):
+        node(False)
+    return sorted(out)
